@@ -243,6 +243,10 @@ impl Tour {
         let candidate =
             self.earliest_arrival_after(self.network.node(node).start_time(), 0, self.nodes.len());
         let mut pos = candidate.unwrap_or(self.nodes.len() - 1);
+        // a node arriving exactly at the start time of node might still reach it (zero turnaround)
+        while pos < self.nodes.len() - 1 && self.network.can_reach(self.nodes[pos], node) {
+            pos += 1;
+        }
         while pos > 0 && !self.network.can_reach(self.nodes[pos - 1], node) {
             pos -= 1;
         }
@@ -418,6 +422,10 @@ impl Tour {
         // but later nodes might also not be reached by node.
 
         let mut pos = candidate.unwrap_or(0);
+        // a node departing exactly at the end time of node might still be reached (zero turnaround)
+        while pos > 0 && self.network.can_reach(node, self.nodes[pos]) {
+            pos -= 1;
+        }
         while pos < self.nodes.len() - 1 && !self.network.can_reach(node, self.nodes[pos + 1]) {
             pos += 1;
         }
